@@ -639,6 +639,8 @@ pub fn gen(thorough: bool, seed: u64, out: &mut impl Write) {
   let busy = spec_line(0, &[(i(0, 0, 7), 11)], &[vec![Err(i(0, 0, 7)), Err(i(0, 0, 1))], vec![], vec![Ok((i(0, 0, 8), 12))], vec![], vec![Err(i(0, 0, 2))]], &[(i(0, 0, 9), 13)]);
   // the same without references to the fragments generated below
   let busy_b = spec_line(0, &[(i(0, 0, 7), 11)], &[vec![Err(i(0, 0, 7)), Err(i(0, 0, 5))], vec![], vec![Ok((i(0, 0, 8), 12))], vec![], vec![Err(i(1, 0, 1))]], &[(i(0, 0, 9), 13)]);
+  // methods of ANOTHER DID carrying the fragments generated below (#1 general-purpose, #7 and #9 embedded), listed first
+  let foreign = spec_line(0, &[(i(1, 0, 1), 21)], &[vec![Ok((i(1, 0, 7), 23))], vec![Ok((i(1, 0, 9), 24))], vec![], vec![], vec![]], &[]);
   let scopes = ["vm", "0", "1", "2", "3", "4"];
   // (a0) fragment STRINGS of every shape: whether each is a fragment (and which) is the C10 model's verdict
   let frag_strings = [
@@ -657,9 +659,9 @@ pub fn gen(thorough: bool, seed: u64, out: &mut impl Write) {
     }
   }
   for kind in ["C", "I"] {
-    // (a) generate_method: every fault mask x scope x fragment kind, from both start documents; then a fault-free
+    // (a) generate_method: every fault mask x scope x fragment kind, from the three start documents; then a fault-free
     //     generate of the same fragment (shows that nothing stale blocks it), state after each step
-    for start in [&empty, &busy] {
+    for start in [&empty, &busy, &foreign] {
       for sc in scopes {
         for fr in ["1", "~", "X", "7", "9", "X1", "X2", "X3", "X4", "X5", "X6"] {
           for m in 0..8u32 {
